@@ -39,7 +39,9 @@ fn c06_scn(name: &str, full: bool, preconfigured: bool) -> ChatScn {
     let mut s = ChatScn::new(name, cfg, vec![part(0, "vic", "vicky", "vu"), part(1, "alice", "alicia", "au"), part(2, "bob", "bobby", "bu")], 1);
     s.prelude = vec![(1, "OPER op oppw".into()), (1, "JOIN #x".into())];
     // the victim also leaves channels before its session ends (what it left must stay left)
-    let mut v: Vec<&'static str> = vec!["JOIN #x", "JOIN #y", "PART #y", "CAP END", "NICK {alt}", "MODE {me} +i", "MODE {me} +ii", "MODE {me} +w", "AWAY :t", "INVITE bob #y"];
+    let mut v: Vec<&'static str> = vec!["JOIN #x", "JOIN #y", "PART #y", "CAP END", "NICK {alt}", "MODE {me} +i", "MODE {me} +ii", "MODE {me} +w", "AWAY :t", "INVITE bob #y",
+        // a rename refused because somebody else holds the name: the session that ends later is still the victim's own
+        "NICK alice"];
     if full {
         v.extend(["OPER op oppw", "JOIN #z", "PART #x", "JOIN #x,#y", "PART #x,#y", "CAP LS 302", "CAP REQ :multi-prefix", "PASS x", "USER again 0 * :again"]);
     }
@@ -320,7 +322,9 @@ pub fn c20_oper_parts(quick: bool) -> Vec<Part> {
 fn c11_plan_parts(quick: bool) -> Vec<Part> {
     let mut parts = vec![];
     let masks: Vec<(&str, Option<&'static str>)> = vec![("nomask", None), ("mask-match", Some("*!~au@127.0.0.1")), ("mask-mismatch", Some("*!*@10.*")), ("mask-other-username", Some("*!~root@127.0.0.1"))];
-    let defs: Vec<(&str, (bool, bool, bool, bool, bool))> = vec![("def-none", (false, false, false, false, false)), ("def-oper", (false, true, false, false, false)), ("def-localoper", (false, false, true, false, false)), ("def-wallops", (false, false, false, false, true))];
+    let defs: Vec<(&str, (bool, bool, bool, bool, bool))> = vec![("def-none", (false, false, false, false, false)), ("def-oper", (false, true, false, false, false)), ("def-localoper", (false, false, true, false, false)), ("def-wallops", (false, false, false, false, true)),
+        // several default modes at once: each of them is held from the registration on
+        ("def-invisible-wallops", (true, false, false, false, true))];
     for (ml, m) in &masks {
         for (dl, d) in &defs {
             if quick && !(*ml == "nomask" || *dl == "def-none") {
@@ -340,7 +344,7 @@ fn c11_plan_parts(quick: bool) -> Vec<Part> {
 
 fn c19_scn(name: &str, full: bool) -> ChatScn {
     let mut s = ChatScn::new(name, oper_cfg(None), vec![part(0, "alice", "alicia", "au"), part(1, "bob", "bobby", "bu"), part(2, "carol", "caro", "cu")], 1);
-    let mut a: Vec<&'static str> = vec!["MODE {me} +i", "MODE {me} -i", "OPER op oppw", "MODE {me} -o", "MODE {me} -oO", "AWAY :t", "NICK {alt}", "JOIN #x", "PART #x", "MODE #x +s", "CAP END", "QUIT"];
+    let mut a: Vec<&'static str> = vec!["MODE {me} +i", "MODE {me} -i", "MODE {me} +i-i", "OPER op oppw", "MODE {me} -o", "MODE {me} -oO", "AWAY :t", "NICK {alt}", "JOIN #x", "PART #x", "MODE #x +s", "CAP END", "QUIT"];
     if full {
         a.extend(["MODE #x -s", "MODE {me} -O", "MODE {me} +o", "MODE {me} +O", "MODE {me} -Oo", "MODE {me} -o-O+i", "AWAY", "KILL {peer} :x", "JOIN #y"]);
     }
